@@ -145,9 +145,9 @@ func (s *Sig) render(q Qual, withNames bool) string {
 func (t *Ty) Render(q Qual) string {
 	switch t.K {
 	case KBasic, KTParam:
-		if t.Elem != nil && strings.HasSuffix(t.Name, "\x00") {
-			// union term with a tilde / composite prefix around a named type: ~[]pkg.T
-			return strings.TrimSuffix(t.Name, "\x00") + t.Elem.Render(q)
+		if t.Elem != nil && strings.Contains(t.Name, "\x00") {
+			// union term with a tilde / composite spelling around a named type: ~[]pkg.T, ~map[pkg.T]string
+			return strings.Replace(t.Name, "\x00", t.Elem.Render(q), 1)
 		}
 		return t.Name
 	case KNamed:
